@@ -663,7 +663,7 @@ pub fn run(ctx: &Ctx) {
     if !crate::pipeline::DRIVER_SRC {
         ctx.note("the driver's pure modules (preprocess.rs, error_helper.rs, print.rs) of the working tree do not compile stand-alone into the harness: in-process calls of preprocess() and of the print reader are replaced by stubs; the CLI parts decide for them");
     }
-    ctx.set_rule("(a) proptest: valid programs from the C11/C13/C08/C12 generators and a list of ~160 hand-picked fragments (empty, blank, single tokens, every prefix of a macro / procedure / print / string definition, no final newline, CR-LF, NUL, BOM, non-ASCII in code, comments and strings, huge numbers in every numeric context, direct loader lines like 'dw [40000]'), subjected to 0-3 byte-level mutations (flip / insert a special byte or multi-byte character / delete / duplicate a span / truncate anywhere / strip the final newline / CR-LF / raw high byte) or token-level mutations (drop, duplicate, swap, replace by a grammar word); every text goes to the driver's own preprocess() (after the driver's comment stripping) and, whole and line by line, to the data loader, the interpreter and the print reader under catch_unwind in a build with overflow checks; (b) a seeded subset goes to the CLI as a file (raw bytes, possibly invalid UTF-8) with closed stdin: exit 0 (or 1 with 'Error Reading file' for non-UTF-8), some output, never a panic or signal; (c) 14 size/depth families (lines, labels, data items, macro parameters, macro chain, macro uses, string length, procedures, nested brackets, digits, undefined labels, one long line, blank lines, error after n lines) with n doubling from 250 in a child process: normal exit, output bytes and peak memory proportional (deterministic bounds), CPU growth only ever reported as inconclusive. Non-trivial = exactly one mutation (differs from a valid program in one place) or a family member with n >= 1000.");
+    ctx.set_rule("(a) proptest: valid programs from the C11/C13/C08/C12 generators and a list of ~160 hand-picked fragments (empty, blank, single tokens, every prefix of a macro / procedure / print / string definition, no final newline, CR-LF, NUL, BOM, non-ASCII in code, comments and strings, huge numbers in every numeric context, direct loader lines like 'dw [40000]'), subjected to 0-3 byte-level mutations (flip / insert a special byte or multi-byte character / delete / duplicate a span / truncate anywhere / strip the final newline / CR-LF / raw high byte) or token-level mutations (drop, duplicate, swap, replace by a grammar word); every text goes to the driver's own preprocess() (after the driver's comment stripping) and, whole and line by line, to the data loader, the interpreter and the print reader under catch_unwind in a build with overflow checks; (b) a seeded subset goes to the CLI as a file (raw bytes, possibly invalid UTF-8) with closed stdin: exit 0 (or 1 with 'Error Reading file' for non-UTF-8), some output, never a panic or signal; (c) 14 size/depth families (lines, labels, data items, macro parameters, macro chain, macro uses, string length, procedures, nested brackets, digits, undefined labels, one long line, blank lines, error after n lines) with n doubling from 250 in a child process: normal exit, output bytes and peak memory proportional (deterministic bounds), CPU growth only ever reported as inconclusive; (d) the print reader behind the real prompt: ~3000 lines (print commands over a lattice of numbers around 2^16, 2^20, 2^31, 2^32, 2^63, 2^64 and beyond in decimal / 0x / 0X / 0b, in every argument position and pair of positions, digit strings up to 20000, token soups of print words, punctuation, numbers, non-ASCII and over-long words) typed in batches of 40 at the prompt of a stepped program in both builds: the emulator survives every line and ends normally at the final 'q'; a failing batch is narrowed to one line. Non-trivial = exactly one mutation (differs from a valid program in one place) or a family member with n >= 1000.");
     ctx.assume("mutated programs given to the CLI have 'start:' renamed so that they cannot start running (a mutated program may legitimately loop forever); unmutated terminating programs are run as they are");
     ctx.assume("exit status 1 with 'Error Reading file' is the documented answer to a file that is not valid UTF-8");
     ctx.set_exhaustive(false);
@@ -783,6 +783,7 @@ pub fn run(ctx: &Ctx) {
     } else {
         ctx.note("the unoptimised build of the emulator is not available (./check builds it): programs are run in the optimised build only");
     }
+    prompt_family(ctx);
     ctx.note(&format!("CLI part finished after {:.1}s", ctx.start.elapsed().as_secs_f64()));
     run_families(ctx);
     // recursion that only appears through a redefinition or after a successful use: refused, never a stack overflow
@@ -792,6 +793,138 @@ pub fn run(ctx: &Ctx) {
     if ctx.tier == Tier::Thorough {
         crate::fuzzrun::campaigns(ctx, &["pre", "data", "interp", "print"]);
     }
+}
+
+
+/// The print reader behind the real prompt: "every string given directly to the ... print reader" is also every line a
+/// user types at `>>> `.  Batches of prompt lines (print commands over a lattice of numbers around 2^16, 2^20, 2^31,
+/// 2^32, 2^63, 2^64 and beyond, in three radices, in every argument position and pair of positions; plus token soups
+/// of print words, punctuation, numbers, non-ASCII and very long words) are typed into a stepped program; the
+/// emulator must answer each and still obey the final `q`.  A failing batch is narrowed to one line.
+pub fn prompt_lines() -> Vec<String> {
+    let big: Vec<u128> = vec![
+        0, 1, 15, 16, 17, 255, 256, 65535, 65536, 65537, (1 << 20) - 2, (1 << 20) - 1, 1 << 20, (1 << 20) + 1, (1u128 << 31) - 1, 1u128 << 31, (1u128 << 32) - 1, 1u128 << 32, (1u128 << 32) + 1,
+        (1u128 << 63) - 1, 1u128 << 63, (1u128 << 63) + 1, (1u128 << 64) - 16, (1u128 << 64) - 2, (1u128 << 64) - 1, 1u128 << 64, (1u128 << 64) + 1, 1u128 << 100,
+    ];
+    let render = |v: u128, r: usize| match r % 5 {
+        0 | 1 => format!("{}", v),
+        2 => format!("0x{:x}", v),
+        3 => format!("0X{:X}", v),
+        _ => format!("0b{:b}", v),
+    };
+    let small_ok = |a: u128, b: u128| !(a < (1 << 20) && b < (1 << 20) && b > a && b - a > 2048);
+    let mut out: Vec<String> = Vec::new();
+    let mut k = 0usize;
+    for &a in &big {
+        for r in 0..5 {
+            if a < (1 << 20) && a > 2048 {
+                // a dump of that length is C17's subject
+            } else {
+                out.push(format!("print mem :{}", render(a, r)));
+            }
+        }
+        for &b in &big {
+            k += 1;
+            if small_ok(a, b) {
+                out.push(format!("print mem {} -> {}", render(a, k), render(b, k / 5)));
+            }
+            if small_ok(a, a + b) {
+                out.push(format!("print mem {} : {}", render(a, k / 3), render(b, k)));
+                out.push(format!("PRINT MEM {}:{}", render(a, k / 7), render(b, k / 2)));
+            }
+        }
+    }
+    for d in [19usize, 20, 21, 39, 40, 100, 1000, 20000] {
+        let n = "9".repeat(d);
+        out.push(format!("print mem {} -> {}", n, n));
+        out.push(format!("print mem 0 : {}", n));
+        out.push(format!("print mem : {}", n));
+        out.push(format!("print mem 0x{} : 1", "f".repeat(d)));
+        out.push(format!("print mem 0b{} -> 1", "1".repeat(d)));
+    }
+    // token soups
+    let words = ["print", "PRINT", "mem", "MEM", "reg", "flags", "->", ":", "-", ">", "0", "1", "16", "0x", "0b", "0x10", "0b101", "1048575", "1048576", "n", "next", "q1", "x", "\u{e9}", "\u{2713}", "\t", "  ", "\"", "[", "]", ",", ";", "-1", "+1", "1e5", "0.5", "18446744073709551615", "18446744073709551616"];
+    let mut x: u64 = 0x9E3779B97F4A7C15;
+    for _ in 0..600 {
+        let mut l = String::new();
+        x ^= x << 13; x ^= x >> 7; x ^= x << 17;
+        let n = 1 + (x % 6) as usize;
+        for j in 0..n {
+            x ^= x << 13; x ^= x >> 7; x ^= x << 17;
+            if j > 0 && x % 5 != 0 {
+                l.push(' ');
+            }
+            l.push_str(words[(x >> 8) as usize % words.len()]);
+        }
+        let t = l.trim();
+        // lines that are commands of the prompt itself would end or advance the run
+        if matches!(t.to_ascii_lowercase().as_str(), "q" | "quit" | "n" | "next" | "") {
+            continue;
+        }
+        out.push(l);
+    }
+    out.push(format!("print {}", "x".repeat(70000)));
+    out.push("\u{feff}print reg".to_string());
+    out
+}
+
+const PROMPT_PROG: &str = "vals: db [7,4]\nstart: mov ax, 0x1234\nmov ds, ax\nmov bx, 2\nmov cx, 3\n";
+
+fn prompt_batch(bin: &'static str, lines: &[String]) -> CliOut {
+    let mut stdin = String::new();
+    for l in lines {
+        stdin.push_str(l);
+        stdin.push('\n');
+    }
+    stdin.push_str("q\n");
+    run_bin_limited(bin, PROMPT_PROG.as_bytes(), Stdin::Data(stdin.as_bytes()), true, 32 << 20, 60_000, DEFAULT_LIMITS)
+}
+
+fn prompt_family(ctx: &Ctx) {
+    use rayon::prelude::*;
+    let lines = prompt_lines();
+    ctx.extra("prompt_lines", json!({"count": lines.len(), "samples": lines.iter().step_by(lines.len() / 12 + 1).map(|l| l.chars().take(80).collect::<String>()).collect::<Vec<_>>()}));
+    let bins: Vec<&'static str> = if debug_cli_available() { vec![CLI_BIN, CLI_DEBUG_BIN] } else { vec![CLI_BIN] };
+    let batches: Vec<&[String]> = lines.chunks(40).collect();
+    let jobs: Vec<(usize, &'static str)> = (0..batches.len()).flat_map(|i| bins.iter().map(move |b| (i, *b))).collect();
+    let outs: Vec<(usize, &'static str, CliOut)> = jobs.par_iter().map(|(i, b)| (*i, *b, prompt_batch(b, batches[*i]))).collect();
+    let mut reported = 0;
+    for (i, b, out) in outs {
+        ctx.add_evals(batches[i].len() as u64);
+        let which = if b == CLI_BIN { "optimised" } else { "unoptimised" };
+        match out.status {
+            Status::Timeout | Status::SpawnError(_) => ctx.inconclusive(&format!("prompt batch {}: {:?}", i, out.status)),
+            _ if out.clean() => {
+                ctx.add_nontrivial(batches[i].len() as u64);
+                ctx.class("c15/prompt-lines-answered-and-quit-obeyed", batches[i].len() as u64);
+            }
+            _ => {
+                if reported >= 3 {
+                    continue;
+                }
+                reported += 1;
+                // narrow to the first single line that does it alone
+                let mut culprit: Option<(String, CliOut)> = None;
+                for l in batches[i] {
+                    let o = prompt_batch(b, std::slice::from_ref(l));
+                    if !o.clean() && !matches!(o.status, Status::Timeout | Status::SpawnError(_)) {
+                        culprit = Some((l.clone(), o));
+                        break;
+                    }
+                }
+                let (stdin, o) = match culprit {
+                    Some((l, o)) => (format!("{}\nq\n", l), o),
+                    None => (batches[i].iter().map(|l| format!("{}\n", l)).collect::<String>() + "q\n", out),
+                };
+                ctx.fail(Failure {
+                    key: format!("c15|cli{}|prompt-line-abort", if b == CLI_BIN { "" } else { "-unoptimised" }),
+                    what: format!("typed at the prompt of the {} build, {:?} ends the emulator with {:?} {} (expected: an answer or a refusal, and a normal end at 'q')", which, stdin.chars().take(120).collect::<String>(), o.status, o.err_str().lines().find(|l| l.contains("panicked")).unwrap_or("")),
+                    replay: json!({"kind":"cli","source":PROMPT_PROG,"stdin":stdin,"interpreted":true,"binary":which}),
+                });
+            }
+        }
+    }
+    ctx.require_class("c15/prompt-lines-answered-and-quit-obeyed", 1000);
 }
 
 pub fn replay(v: &Value) -> Result<String, String> {
